@@ -35,6 +35,9 @@ type CurveCv struct {
 	N    int      `json:"n"`
 	CCW  bool     `json:"ccw"`
 	Rot  bool     `json:"rot"`
+	// Closed: a "bez" whose last control point is its first, closed by z (one-segment loop)
+	Closed bool `json:"closed"`
+	HW     int  `json:"hw"` // rcorner: half width (also at the top level of the scenario)
 }
 
 type curveGeom struct {
@@ -91,6 +94,15 @@ func (s *CurveScenario) describe() string {
 		if len(s.Cv.Post) == 2 {
 			fmt.Fprintf(&b, "L%d %d", s.Cv.Post[0], s.Cv.Post[1])
 		}
+		if s.Cv.Closed {
+			b.WriteString("z")
+		}
+	case "rcorner":
+		y, sw := 1, 1
+		if !s.Cv.CCW {
+			y, sw = -1, 0
+		}
+		fmt.Fprintf(&b, "M-25 0L0 0A10 10 0 0 %d 10 %dL10 %d", sw, 10*y, 40*y)
 	case "arc":
 		g := s.G
 		rot := "0"
@@ -127,6 +139,22 @@ func (s *CurveScenario) build() *canvas.Path {
 		if len(s.Cv.Post) == 2 {
 			p.LineTo(m(s.Cv.Post[0], s.Cv.Post[1]))
 		}
+		if s.Cv.Closed {
+			p.Close()
+		}
+	case "rcorner":
+		y, sweep := 1, true
+		if !s.Cv.CCW {
+			y, sweep = -1, false
+		}
+		if e.Det() < 0 {
+			sweep = !sweep
+		}
+		p.MoveTo(m(-25, 0))
+		p.LineTo(m(0, 0))
+		x, yy := m(10, 10*y)
+		p.ArcTo(10*scale, 10*scale, 0, false, sweep, x, yy)
+		p.LineTo(m(10, 40*y))
 	case "arc":
 		g := s.G
 		p.MoveTo(m(g.S[0], g.S[1]))
@@ -149,7 +177,11 @@ func observeCurve(s *CurveScenario, guard bool) (ev curveEvent, kind string, msg
 	scale := math.Sqrt(math.Abs(s.Emb.Det()))
 	var r *canvas.Path
 	p := s.build()
-	call := func() { r = p.Stroke(2*float64(s.HW)*scale, canvas.RoundCap, canvas.RoundJoin, 0.01*scale) }
+	call := func() {
+		fastMu.RLock()
+		defer fastMu.RUnlock()
+		r = p.Stroke(2*float64(s.HW)*scale, canvas.RoundCap, canvas.RoundJoin, 0.01*scale)
+	}
 	if guard {
 		kind, msg = latgeo.Guard(20*time.Second, call)
 	} else if ok, m := latgeo.Try(call); !ok {
@@ -176,6 +208,8 @@ func observeCurve(s *CurveScenario, guard bool) (ev curveEvent, kind string, msg
 		band, nWant = 12, 200
 	} else if s.F["twoinfl"] {
 		nWant = 420
+	} else if s.Cv.Type == "rcorner" {
+		band = 0.9
 	}
 	rng := rand.New(rand.NewSource(s.Seed))
 	var pts []oracle.Pt
@@ -208,25 +242,40 @@ func observeCurve(s *CurveScenario, guard bool) (ev curveEvent, kind string, msg
 		}
 		ev.Samples = append(ev.Samples, [3]int{gx, gy, f})
 	}
-	// rings around the junctions between a straight segment and the curve (where the joins are)
-	if s.Cv.Type == "corner" {
-		var js [][2]int
+	// rings around the junctions (line/curve corners, the closing corner of a one-segment loop, the ends of the rounded
+	// corner), where the joins are; the rounded corner also gets a coarse grid over the whole corner region
+	var js [][2]int
+	switch {
+	case s.Cv.Type == "corner":
 		if len(s.Cv.Pre) == 2 {
 			js = append(js, s.Cv.Pts[0])
 		}
 		if len(s.Cv.Post) == 2 {
 			js = append(js, s.Cv.Pts[len(s.Cv.Pts)-1])
 		}
-		for _, j := range js {
-			for _, rr := range []float64{hw - 0.25, hw - 0.7, hw + 0.25} {
-				for k := 0; k < 40; k++ {
-					a := 2 * math.Pi * float64(k) / 40
-					addSample(float64(j[0])+rr*math.Cos(a), float64(j[1])+rr*math.Sin(a))
-				}
+	case s.Cv.Type == "bez" && s.Cv.Closed:
+		js = append(js, s.Cv.Pts[0])
+	case s.Cv.Type == "rcorner":
+		y := 10
+		if !s.Cv.CCW {
+			y = -10
+		}
+		js = append(js, [2]int{0, 0}, [2]int{10, y})
+		for gx := -hw - 2; gx <= 12+hw; gx += 2 {
+			for gy := -hw - 2; gy <= 12+hw; gy += 2 {
+				addSample(gx, gy*float64(y)/10)
 			}
 		}
-		nWant += len(ev.Samples)
 	}
+	for _, j := range js {
+		for _, rr := range []float64{hw - 0.25, hw - 0.7, hw * 0.6, hw + 0.25} {
+			for k := 0; k < 40; k++ {
+				a := 2 * math.Pi * float64(k) / 40
+				addSample(float64(j[0])+rr*math.Cos(a), float64(j[1])+rr*math.Sin(a))
+			}
+		}
+	}
+	nWant += len(ev.Samples)
 	for tries := 0; len(ev.Samples) < nWant && tries < 40*nWant; tries++ {
 		base := pts[rng.Intn(len(pts))]
 		ang := rng.Float64() * 2 * math.Pi
@@ -305,6 +354,12 @@ func judgeCurves(c *core.Ctx, evs []curveEvent, workers int) ([]curveVerdict, bo
 
 func curveTag(s *CurveScenario) string {
 	t := s.Cv.Type
+	if s.Cv.Type == "bez" && s.Cv.Closed {
+		t = "loop"
+	}
+	if s.Cv.Type == "rcorner" {
+		return fmt.Sprintf("rcorner+hw%d", s.HW)
+	}
 	if s.Cv.Type == "arc" {
 		if s.F["nearhalf"] {
 			t += "+near-half-turn"
@@ -353,6 +408,10 @@ func replayCurve(c *core.Ctx, s *CurveScenario) []core.Mismatch {
 	return ms
 }
 
+// canvas.FastStroke is a package variable: calls that set it hold the write lock, every other Stroke/Offset call of
+// this driver the read lock.
+var fastMu sync.RWMutex
+
 var curveEmbs = []latgeo.Emb{latgeo.Symmetries[1], latgeo.Translate, latgeo.Pyth, latgeo.Rot17, latgeo.Symmetries[4], latgeo.Symmetries[2]}
 
 // runCurves: the curved stage of the C04 check.
@@ -378,9 +437,9 @@ func runCurves(c *core.Ctx) {
 					return
 				}
 				base.What = "curve"
-				base.HW = 2
-				if base.Cv.Type == "arc" {
-					base.HW = 20
+				if base.HW <= 0 {
+					c.Broken("curve scenario without half width")
+					return
 				}
 				k := atomic.AddInt64(&nScen, 1)
 				h := hash(string(p))
@@ -415,7 +474,7 @@ func runCurves(c *core.Ctx) {
 	for _, f := range []struct {
 		fam string
 		num int
-	}{{"cubic2", c.Pick(300, 3000)}, {"cubic", c.Pick(250, 2500)}, {"corner", 0}, {"arc", c.Pick(60, 600)}} {
+	}{{"cubic2", c.Pick(300, 3000)}, {"cubic", c.Pick(250, 2500)}, {"corner", 0}, {"loop", 0}, {"rcorner", 0}, {"arc", c.Pick(60, 600)}} {
 		wg.Add(1)
 		go func() { defer wg.Done(); collect(f.fam, f.num, c.Seed) }()
 	}
